@@ -407,6 +407,22 @@ def setIncl (rec : EqRec) (e : Ty) : List Int → List Payload → List Int → 
     | o => o
   | _, _, _, _ => .ok true
 
+/-- one loop of the set branch of Equals: for each member of the first set in
+iteration order — not wholly known → the comparison is unknown (`none`); otherwise
+`Has` in the second set; the conjunction of the `Has` answers -/
+def setInclWK (rec : EqRec) (e : Ty) : List Int → List Payload → List Int → List Payload → Res (Option Bool)
+  | i :: is, x :: xs, iy, ys =>
+    if !x.whollyKnown then .ok none
+    else match setHas rec e i x iy ys with
+      | .ok h =>
+        (match setInclWK rec e is xs iy ys with
+         | .ok (some r) => .ok (some (h && r))
+         | o => o)
+      | .err c => .err c
+      | .panic w => .panic w
+      | .unmodelled => .unmodelled
+  | _, _, _, _ => .ok (some true)
+
 def accVal : EqAcc → Value
   | .t => boolVal true
   | .f => boolVal false
@@ -443,17 +459,19 @@ def equalsFuel : Nat → EqRec
         | .map e, .smap kx xs, .smap ky ys =>
           if xs.length == ys.length then (equalsMap rec' e kx xs ky ys false).map accVal else .ok (boolVal false)
         | .set e, .sset ix xs, .sset iy ys =>
-          -- any unknown member in either set → unknown; else mutual inclusion
-          if xs.any isUnkPayload || ys.any isUnkPayload then .ok unkBool
-          else
-            match setIncl rec' e ix xs iy ys, setIncl rec' e iy ys ix xs with
-            | .ok p, .ok q => .ok (boolVal (p && q))
-            | .panic w, _ => .panic w
-            | _, .panic w => .panic w
-            | .unmodelled, _ => .unmodelled
-            | _, .unmodelled => .unmodelled
-            | .err c, _ => .err c
-            | _, .err c => .err c
+          -- a member that is not wholly known (in either set) → unknown; else mutual inclusion
+          match setInclWK rec' e ix xs iy ys with
+          | .ok none => .ok unkBool
+          | .ok (some p) =>
+            (match setInclWK rec' e iy ys ix xs with
+             | .ok none => .ok unkBool
+             | .ok (some q) => .ok (boolVal (p && q))
+             | .err c => .err c
+             | .panic w => .panic w
+             | .unmodelled => .unmodelled)
+          | .err c => .err c
+          | .panic w => .panic w
+          | .unmodelled => .unmodelled
         | .capsule _, .caps, .caps => .unmodelled
         | _, _, _ => .panic "payload does not match type"
 
